@@ -65,9 +65,18 @@ def _worker(task):
                 out["outcomes"][k] = out["outcomes"].get(k, 0) + v
             seen = {}
             bad = 0
+            same = set()
             for ob in res.obligations:
                 if bad and os.environ.get("PYVC_FAIL_FAST"):
                     break
+                if getattr(c, "dedupe", False):
+                    # identical obligation (name, path condition, goal: same hash-consed z3 terms) regenerated on
+                    # another path: already decided
+                    k_ = (ob.name, ob.goal.get_id() if hasattr(ob.goal, "get_id") else id(ob.goal),
+                          tuple(t_.get_id() for t_ in ob.pc))
+                    if k_ in same:
+                        continue
+                    same.add(k_)
                 n = seen.get(ob.name, 0)
                 seen[ob.name] = n + 1
                 if n:
@@ -82,6 +91,7 @@ def _worker(task):
                     rec["outside_region"] = {}
                     for fid, term in ob.regions.items():
                         ob2 = _Ob(ob.name, ob.kind, list(ob.pc) + [_z3.Not(term)], ob.goal)
+                        ob2.logic = getattr(ob, "logic", None)
                         discharge(ob2, tier, want_model=False)
                         rec["outside_region"][fid] = ob2.status
                 if ob.status == "failed":
